@@ -43,7 +43,7 @@ pub fn fixed_cases() -> Vec<Xs> {
 }
 
 // shapes weighted towards skewed (both signs), bimodal, outlier, two-point, progressions
-static SHAPES: [usize; 14] = [2, 3, 3, 10, 10, 4, 4, 5, 6, 6, 7, 11, 1, 8];
+static SHAPES: [usize; 16] = [2, 3, 3, 10, 10, 4, 4, 5, 6, 6, 7, 11, 1, 8, 13, 13];
 
 pub fn run(cx: &Ctx) {
     cx.set_rule("cases = data sets with n >= 2 and non-zero spread, shapes weighted towards skewed (exponential, log-normal, negative heavy tail), two-point, bimodal, single-outlier and arithmetic progressions, offsets up to 1e9 spreads, fed one observation at a time to Skewness and Kurtosis; skewness(), kurtosis() and the re-exported mean/variance accessors judged against exact m3/m2^1.5, m4/m2^2-3 with the DESIGN.md 4.1 envelopes. Non-trivial = |exact skewness| > 0.1 (Kurtosis: or |excess kurtosis| > 0.1); distinct = hash of the sequence bits");
